@@ -27,32 +27,36 @@ variable {M : Type} [AddCommMonoid M]
 /-- **`total_order_independent`**: in any commutative monoid, for every worker count, every assignment of
 increments to workers and every interleaving: a race-free schedule that runs all workers to completion leaves
 `initial + Σ increments` in the shared arrays — independent of the order. -/
-theorem total_order_independent (c : Config M) (hn : 0 < c.n) (shared0 : M) (sched : List Nat)
+theorem total_order_independent (c : Config M) (shared0 : M) (sched : List Nat)
     (hrf : RaceFree c shared0 sched) (hc : Complete c (run c (init shared0) sched)) :
     (run c (init shared0) sched).shared = shared0 + totalOf c :=
-  total_order_independent_aux hn sched hrf hc
+  total_order_independent_aux sched hrf hc
 
-/-- if no increment bypasses the thread-local arrays, every schedule is race free -/
-theorem raceFree_of_locals_only (c : Config M) (hn : 0 < c.n) (hd : c.direct = []) (shared0 : M) (sched : List Nat) :
+/-- if no worker's increment bypasses its thread-local arrays, every schedule is race free -/
+theorem raceFree_of_locals_only (c : Config M) (hd : ∀ w, w < c.n → c.direct w = []) (shared0 : M) (sched : List Nat) :
     RaceFree c shared0 sched :=
-  raceFree_of_locals_only_aux hn hd sched
+  raceFree_of_locals_only_aux hd sched
 
-/-- **`raceFree_iff_locals_only`**: all schedules are race free exactly when task 0 writes only thread-local
-arrays, or there is no second worker. -/
-theorem raceFree_iff_locals_only (c : Config M) (hn : 0 < c.n) :
-    (∀ shared0 sched, RaceFree c shared0 sched) ↔ (c.direct = [] ∨ c.n ≤ 1) := by
+/-- **`raceFree_iff_locals_only`**: all schedules are race free exactly when EVERY worker's `execute` writes only
+its thread-local arrays (no worker has a direct increment), or there is no second worker. -/
+theorem raceFree_iff_locals_only (c : Config M) :
+    (∀ shared0 sched, RaceFree c shared0 sched) ↔ ((∀ w, w < c.n → c.direct w = []) ∨ c.n ≤ 1) := by
   constructor
   · intro h
     by_contra hne
-    have h1 : c.direct ≠ [] := fun e => hne (Or.inl e)
     have h2 : 2 ≤ c.n := by
       by_contra h2; exact hne (Or.inr (by omega))
-    obtain ⟨sched, hr⟩ := race_witness h2 h1 (0 : M)
+    have h1 : ∃ a, a < c.n ∧ c.direct a ≠ [] := by
+      by_contra hno
+      exact hne (Or.inl (fun w hw => by
+        by_contra hd; exact hno ⟨w, hw, hd⟩))
+    obtain ⟨a, ha, hda⟩ := h1
+    obtain ⟨sched, hr⟩ := race_witness a ha h2 hda (0 : M)
     have := h 0 sched sched.length
     rw [List.take_length] at this
     exact this hr
   · rintro (hd | h1) shared0 sched
-    · exact raceFree_of_locals_only c hn hd shared0 sched
+    · exact raceFree_of_locals_only c hd shared0 sched
     · intro k ⟨a, b, ha, hb, hab, _⟩
       omega
 
@@ -71,7 +75,7 @@ theorem old_code_has_race (numThreads : Nat) (h2 : 2 ≤ numThreads) (mode : Mod
     ∃ sched, ¬ RaceFree (configOld numThreads mode forces) shared0 sched := by
   have hn : 2 ≤ (configOld numThreads mode forces).n := by
     rw [configV_n]; unfold C33.peWorkers; split <;> omega
-  have hd : (configOld numThreads mode forces).direct ≠ [] := by
+  have hd : (configOld numThreads mode forces).direct 0 ≠ [] := by
     simp only [configV, taskDirectV, if_true]
     have hmem : f.value ∈ ((forces.filter (fun f => !f.parallel)).filter (evaluated mode)).map (·.value) :=
       List.mem_map.mpr ⟨f, List.mem_filter.mpr ⟨List.mem_filter.mpr ⟨hf, by simp [hnp]⟩, hev⟩, rfl⟩
@@ -79,7 +83,7 @@ theorem old_code_has_race (numThreads : Nat) (h2 : 2 ≤ numThreads) (mode : Mod
     | all => exact absurd rfl hm
     | cachedAndNonCached => exact List.ne_nil_of_mem hmem
     | nonCached => exact List.ne_nil_of_mem hmem
-  obtain ⟨sched, hr⟩ := race_witness hn hd shared0
+  obtain ⟨sched, hr⟩ := race_witness 0 (by omega) hn hd shared0
   refine ⟨sched, fun h => ?_⟩
   have := h sched.length
   rw [List.take_length] at this
@@ -89,8 +93,8 @@ theorem old_code_has_race (numThreads : Nat) (h2 : 2 ≤ numThreads) (mode : Mod
 theorem current_code_raceFree (numThreads : Nat) (mode : Mode) (forces : List (ForceElt M)) (shared0 : M)
     (sched : List Nat) : RaceFree (configCurrent numThreads mode forces) shared0 sched := by
   apply raceFree_of_locals_only
-  · rw [configV_n]; exact workers_pos _
-  · rfl
+  intro w _
+  simp [configV, taskDirectV]
 
 /-! ### the requested total is the serial sum over the force elements -/
 
@@ -120,16 +124,15 @@ theorem tasks_eq_assignment (numThreads T : Nat) :
   · simp [h]
 
 /-- serial sum of the forces evaluated in this mode, in index order -/
-def serialSum (mode : Mode) (forces : List (ForceElt M)) : M :=
-  sumList ((forces.filter (evaluated mode)).map (·.value))
+abbrev serialSum (mode : Mode) (forces : List (ForceElt M)) : M := serialSumD mode forces
 
 theorem serialSum_split (mode : Mode) (forces : List (ForceElt M)) :
     serialSum mode forces =
       serialSum mode (forces.filter (fun f => !f.parallel)) + serialSum mode (forces.filter (fun f => f.parallel)) := by
   induction forces with
-  | nil => simp [serialSum, sumList]
+  | nil => simp [serialSum, serialSumD, sumList]
   | cons f l ih =>
-    unfold serialSum at ih ⊢
+    unfold serialSum serialSumD at ih ⊢
     cases hp : f.parallel <;> cases he : evaluated mode f <;>
       simp only [List.filter_cons, hp, he, Bool.not_false, Bool.not_true, if_true, if_false, List.map_cons, sumList,
         Bool.false_eq_true] <;> rw [ih] <;> abel
@@ -149,18 +152,35 @@ theorem sum_par_tasks (old : Bool) (mode : Mode) (forces : List (ForceElt M)) :
         | none => []))) = serialSum mode l := by
     intro l
     induction l with
-    | nil => simp [serialSum, sumList]
+    | nil => simp [serialSum, serialSumD, sumList]
     | cons f l ih =>
       rw [List.length_cons, List.range_succ_eq_map, List.map_cons, List.map_map]
       simp only [sumList, List.getElem?_cons_zero, Function.comp_def, Nat.succ_eq_add_one, List.getElem?_cons_succ]
       rw [ih]
-      unfold serialSum
+      unfold serialSum serialSumD
       cases he : evaluated mode f <;> simp [List.filter_cons, he, sumList]
   rw [← gen par]
   congr 1
   apply List.map_congr_left
   intro k _
   rw [key k]
+
+theorem sumList_map_add {α : Type} (l : List α) (a b : α → M) :
+    sumList (l.map (fun x => a x + b x)) = sumList (l.map a) + sumList (l.map b) := by
+  induction l with
+  | nil => simp [sumList]
+  | cons x l ih => simp only [List.map_cons, sumList, ih]; abel
+
+theorem sumList_range_first (d : List M) : ∀ n, 0 < n →
+    sumList ((List.range n).map (fun w => sumList (if w = 0 then d else []))) = sumList d := by
+  intro n; induction n with
+  | zero => intro h; omega
+  | succ n ih =>
+    intro _
+    rw [List.range_succ, List.map_append, sumList_append]
+    by_cases hn : n = 0
+    · subst hn; simp [sumList]
+    · rw [ih (by omega)]; simp [hn, sumList]
 
 /-- **`total = Σᵢ fᵢ`**: what the transcription (current code and the pre-fix code alike) asks the workers to add up — for every thread
 count and every mode — is the serial sum of the evaluated force elements. -/
@@ -193,13 +213,14 @@ theorem totalOf_eq_serial (old : Bool) (numThreads : Nat) (mode : Mode) (forces 
   have h3 : sumList (taskDirectV old mode forces) + sumList (taskLocalV old mode forces 0) = serialSum mode nonPar := by
     have hall : ∀ l : List (ForceElt M), l.filter (evaluated .all) = l :=
       fun l => List.filter_eq_self.mpr (fun _ _ => rfl)
-    cases old <;> cases mode <;> simp [taskDirectV, taskLocalV, serialSum, sumList, ← hnon, hall]
+    cases old <;> cases mode <;> simp [taskDirectV, taskLocalV, serialSum, serialSumD, sumList, ← hnon, hall]
   unfold totalOf
-  have e0 : (configV old numThreads mode forces).direct = taskDirectV old mode forces := rfl
   have e1 : (configV old numThreads mode forces).n = workers numThreads := rfl
-  have e2 : (fun w => sumList ((configV old numThreads mode forces).contribs w)) =
-      (fun w => sumList ((tasksOf numThreads T w).flatMap (taskLocalV old mode forces))) := rfl
-  rw [e0, e1, e2, h1, h2, ← add_assoc, h3, serialSum_split mode forces]
+  have e2 : (fun w => sumList ((configV old numThreads mode forces).direct w) + sumList ((configV old numThreads mode forces).contribs w)) =
+      (fun w => sumList (if w = 0 then taskDirectV old mode forces else []) +
+        sumList ((tasksOf numThreads T w).flatMap (taskLocalV old mode forces))) := rfl
+  rw [e1, e2, sumList_map_add, sumList_range_first _ (workers numThreads) (workers_pos numThreads), h1, h2, ← add_assoc, h3,
+    serialSum_split mode forces]
 
 /-- **the current code is correct for every schedule**: every interleaving of the current
 `CalcForcesParallelTask` is race free, and every complete one leaves the serial sum of the evaluated force
@@ -209,9 +230,8 @@ theorem current_code_total (numThreads : Nat) (mode : Mode) (forces : List (Forc
     (hc : Complete (configCurrent numThreads mode forces) (run (configCurrent numThreads mode forces) (init shared0) sched)) :
     RaceFree (configCurrent numThreads mode forces) shared0 sched ∧
     (run (configCurrent numThreads mode forces) (init shared0) sched).shared = shared0 + serialSum mode forces := by
-  have hn : 0 < (configCurrent numThreads mode forces).n := by rw [configV_n]; exact workers_pos _
   have hrf := current_code_raceFree numThreads mode forces shared0 sched
-  exact ⟨hrf, by rw [total_order_independent _ hn shared0 sched hrf hc, totalOf_eq_serial]⟩
+  exact ⟨hrf, by rw [total_order_independent _ shared0 sched hrf hc, totalOf_eq_serial]⟩
 
 /-! ### subsystem level: enabled mask and task class -/
 
@@ -231,6 +251,7 @@ theorem configSubsystem_eq (numThreads : Nat) (mode : Mode) (all : List (MForce 
       configCurrent (effectiveThreads numThreads (subsystemHasParallel all)) mode (enabledElts all) := by
   simp only [configSubsystem, configV, taskDirectV, Bool.false_eq_true, if_false]
   congr 1
+  · funext w; simp
   funext w
   apply List.flatMap_congr
   intro k _
@@ -253,6 +274,104 @@ theorem subsystem_total_enabled (numThreads : Nat) (mode : Mode) (all : List (MF
       shared0 + serialSum mode (enabledElts all) := by
   rw [configSubsystem_eq] at hc ⊢
   exact current_code_total _ mode (enabledElts all) shared0 sched hc
+
+/-! ### executor / task class as state: the order of `setNumberOfThreads` and `realizeTopology` -/
+
+/-- right after `realizeTopology` the executor and the task class fit together, whatever happened before
+(any number of `setNumberOfThreads` calls, earlier topology realizations) -/
+theorem threadSafe_after_topology (st : SubState) (hp : Bool) :
+    ThreadSafe (st.apply (.realizeTopology hp)) = true := by
+  cases hp <;> simp [SubState.apply, ThreadSafe]
+
+/-- … and the state reached is the one `configSubsystem` assumes: threads passed through `effectiveThreads` -/
+theorem state_after_set_then_topology (st : SubState) (n : Nat) (hp : Bool) :
+    (st.apply (.setNumberOfThreads n)).apply (.realizeTopology hp) = ⟨effectiveThreads n hp, hp⟩ := by
+  cases hp <;> simp [SubState.apply, effectiveThreads]
+
+/-- FINDING (threads set AFTER topology): `setNumberOfThreads` replaces the executor without looking at the task
+class and without invalidating the topology cache, so a subsystem without parallel forces ends up running the
+non-thread-safe `CalcForcesNonParallelTask` on `n ≥ 2` workers: the state is not `ThreadSafe`. -/
+theorem threads_after_topology_unsafe (ncpu n : Nat) (hn : 2 ≤ n) :
+    ThreadSafe (((SubState.init ncpu).apply (.realizeTopology false)).apply (.setNumberOfThreads n)) = false := by
+  simp [SubState.apply, SubState.init, ThreadSafe]; omega
+
+/-- what goes wrong then (member accumulators shared by the workers): with two workers and one force adding
+200000, one interleaving counts it twice, another loses it (`NPT` mini-model, see the model file). -/
+theorem nonparallel_task_two_workers_wrong :
+    (NPT.run 200000 NPT.init [1, 0, 0, 0, 1, 1]).shared = 400000 ∧
+    (NPT.run 200000 NPT.init [0, 0, 1, 0, 1, 1]).shared = 0 ∧
+    (NPT.run 200000 NPT.init [0, 0, 0, 1, 1, 1]).shared = 200000 := by decide
+
+theorem configOfState_eq (st : SubState) (mode : Mode) (all : List (MForce M))
+    (ht : st.taskParallel = subsystemHasParallel all) :
+    configOfState st mode all = configCurrent st.execThreads mode (enabledElts all) := by
+  simp only [configOfState, configV, taskDirectV, Bool.false_eq_true, if_false]
+  congr 1
+  · funext w; simp
+  funext w
+  apply List.flatMap_congr
+  intro k _
+  unfold taskLocalC
+  by_cases hk : k = 0
+  · subst hk; simp
+  · simp only [hk, if_false]
+    rw [ht]
+    cases hp : subsystemHasParallel all
+    · simp only [Bool.false_eq_true, if_false]
+      simp [taskLocalV, hk, filter_parallel_enabled_nil all hp]
+    · simp
+
+/-- total = Σ over the enabled forces for every schedule, in ANY subsystem state in which the task class was chosen
+by the last `realizeTopology` (`taskParallel = subsystemHasParallel all`) and which is `ThreadSafe`.  `ThreadSafe`
+is the validity condition of the model (thread-local accumulators): it holds after every `realizeTopology`
+(`threadSafe_after_topology`) and fails when `setNumberOfThreads(n ≥ 2)` follows the topology realization of a
+subsystem without parallel forces (`threads_after_topology_unsafe`) — there the real code is wrong. -/
+theorem subsystem_total_enabled_of_state (st : SubState) (_hs : ThreadSafe st = true) (mode : Mode) (all : List (MForce M))
+    (ht : st.taskParallel = subsystemHasParallel all) (shared0 : M) (sched : List Nat)
+    (hc : Complete (configOfState st mode all) (run (configOfState st mode all) (init shared0) sched)) :
+    RaceFree (configOfState st mode all) shared0 sched ∧
+    (run (configOfState st mode all) (init shared0) sched).shared = shared0 + serialSum mode (enabledElts all) := by
+  rw [configOfState_eq st mode all ht] at hc ⊢
+  exact current_code_total _ mode (enabledElts all) shared0 sched hc
+
+/-! ### a direct increment by ANY worker (e.g. a parallel-force task writing the shared arrays) is a race -/
+
+/-- DESIGN's "every execute writes only its locals", the other half: if the task of ANY worker — not only task 0 —
+incremented the shared arrays directly, a racy interleaving would exist (two workers suffice). -/
+theorem any_worker_direct_has_race (c : Config M) (a : Nat) (ha : a < c.n) (hn : 2 ≤ c.n) (hd : c.direct a ≠ [])
+    (shared0 : M) : ∃ sched, ¬ RaceFree c shared0 sched := by
+  obtain ⟨sched, hr⟩ := race_witness a ha hn hd shared0
+  refine ⟨sched, fun h => ?_⟩
+  have := h sched.length
+  rw [List.take_length] at this
+  exact this hr
+
+/-! ### the position-only cache -/
+
+theorem cacheSum_eq (forces : List (ForceElt M)) :
+    cacheSum forces = sumList ((forces.filter (·.posOnly)).map (·.value)) := by
+  unfold cacheSum
+  induction forces.filter (·.posOnly) with
+  | nil => rfl
+  | cons f l ih => simp only [List.foldr_cons, List.map_cons, sumList, ih]
+
+/-- what a `NonCached` realization reports (freshly summed velocity-dependent forces plus the cache filled by
+the preceding `CachedAndNonCached` realization at the same positions) equals what an `All`/`CachedAndNonCached`
+realization reports: the serial sum of all enabled forces. -/
+theorem nonCached_plus_cache (forces : List (ForceElt M)) :
+    serialSum .nonCached forces + cacheSum forces = serialSum .all forces ∧
+    serialSum .cachedAndNonCached forces = serialSum .all forces := by
+  refine ⟨?_, rfl⟩
+  rw [cacheSum_eq]
+  unfold serialSum serialSumD
+  induction forces with
+  | nil => simp [sumList]
+  | cons f l ih =>
+    cases hp : f.posOnly <;>
+      simp only [List.filter_cons, evaluated, hp, Bool.not_false, Bool.not_true, if_true, if_false, List.map_cons,
+        sumList, Bool.false_eq_true] at ih ⊢
+    · rw [add_assoc, ih]
+    · rw [← ih]; abel
 
 /-! ### the concrete lost update (finding F7 in miniature, HISTORICAL: the code before commit 199e8a3a) -/
 
